@@ -45,12 +45,15 @@ CHECKS = {
         text='TLC explores every (schema, root type, boundary-biased valid value) of the StoneWireMC universe (76 schemas x 16 root '
              'types, ~3*10^4 states) and checks RoundTrip/Idempotent/ValuesAreValid on the documented wire format; each state is then '
              'replayed through the python_types output: value built with generated classes, encoded, decoded strict+lenient via both '
-             'entry points, compared by runtime == and by projected abstract value, re-encoded.',
+             'entry points, compared by runtime == and by projected abstract value, re-encoded. StoneWireWide evaluates the same operators and invariants on values '
+             'recorded by a driver on the implementation side (random, depth 4, several optional fields, lists and maps of three) and the harness '
+             'replays them the same way.',
         ref='3.5, 4 (C04)'),
     'C05': dict(
         technique='TLA+ reference encoder (StoneWire!Enc, written from docs/json_serializer.rst) evaluated by TLC on every state; compared with the real encoder',
         text='The document predicted by the TLA+ Enc operator (driven by the abstract schema, not by reflection tables) for every '
-             'state of StoneWireMC is compared as type-strict parsed JSON with json_compat_obj_encode and json_encode output.',
+             'state of StoneWireMC is compared as type-strict parsed JSON with json_compat_obj_encode and json_encode output; likewise for the wider, '
+             'deeper values recorded by harness/widegen.py and evaluated by StoneWireWide.',
         ref='3.5, 4 (C05)'),
     'C06': dict(
         technique='TLA+ reference decoder/classifier (StoneWire!Dec) + adversarial Tamper action explored by TLC; every document replayed into json_decode/json_compat_obj_decode',
